@@ -80,13 +80,18 @@ def table_strings(ctx, recs):
             a = "owned=%s present=%s missing=%s" % (_owned(real), sorted(x for x in rest if x in real), r["missing"])
             b = "owned=%s present=%s missing=[]" % (_owned(t), rest)
         else:
-            cds = r["cds"] or [False, True]
-            t = sorted({x for cd in cds for x in tab(("state", r["dir"], int(r["pu"]), int(r["isdelete"]), int(cd)))})
-            if r["cds"]:
-                a, b = "owned=%s" % _owned(real), "owned=%s" % _owned(t)
-            else:
-                a = "owned-subset=%s" % all(x in _owned(t) for x in _owned(real))
-                b = "owned-subset=True"
+            # per-state form: every tuple touching this ProcessState is one of the table's tuples
+            # (for some childisdelete), and for each kind of child action that occurs the
+            # table's tuples through the ProcessState are all registered
+            allt = {x for cd in (0, 1) for x in tab(("state", r["dir"], int(r["pu"]), int(r["isdelete"]), cd))}
+            extra = sorted(x for x in _owned(real) if x not in allt)
+            missing = sorted(
+                x
+                for cd in r["cds"]
+                for x in _owned(tab(("state", r["dir"], int(r["pu"]), int(r["isdelete"]), int(cd))))
+                if x not in real and "save_parent" not in x and "delete_parent" not in x
+            )
+            a, b = "extra=%s missing=%s" % (extra, missing), "extra=[] missing=[]"
         cases.append({k: r[k] for k in r if k != "tuples"})
         impl.append(a)
         model.append(b)
@@ -141,7 +146,7 @@ def run(ctx, deep=False):
 
     ctx.rule = (
         "random object-graph histories (1-3 rounds of 2-8 (quick) / 1-4 rounds of 2-12 (thorough) mutations: create, re-parent, delete with "
-        "cascades, orphan, many-to-many link/unlink, post_update reference, rename) over six relationship families, each round ended by "
+        "cascades, orphan, many-to-many link/unlink, post_update reference, rename) over fourteen relationship families (harness/lib_graph.py), each round ended by "
         "flush or commit on SQLite with foreign_keys=ON; every flush's registered dependencies are compared with the Lean tables; "
         "non-trivial = more than two DML statements"
     )
